@@ -143,7 +143,9 @@ func (p c10) universeCase(c *fw.Case) {
 		root, base, docs, loadErr, markers = u.Root, u.BaseURI, u.Docs, u.LoadErr, u.Markers
 	}
 	// hostile twist: point some reference at a keyword location that may be absent / not a schema
+	twisted := false
 	if r.IntN(3) == 0 {
+		twisted = true
 		root = strings.Replace(root, `"$ref":"`, `"$ref":"`+gen.Pick(r, []string{"#/not", "#/items", "#/then", "#/properties", "#/$defs/t0/not", "#/additionalProperties/not", "#/contains/if", "#/else"})+`","x-was":"`, 1)
 	}
 	ld := &mapLoader{docs: docs, fail: loadErr}
@@ -157,8 +159,33 @@ func (p c10) universeCase(c *fw.Case) {
 	if err != nil {
 		return
 	}
+	// a twisted reference that DOES resolve may close an in-place reference cycle ("else": {"$ref": "#/else"}), which is
+	// outside the property's domain: Validate is then decided only if the reference model evaluates the same pair
+	var guard *refmodel.Model
+	if twisted {
+		uu := &refmodel.Universe{Draft: refmodel.D2020, BaseURI: base, Root: gen.Parse(root), Docs: map[string]any{}}
+		if strings.Contains(root, gen.Schema7URI) {
+			uu.Draft = refmodel.D7
+		}
+		for k, v := range docs {
+			uu.Docs[k] = gen.Parse(v)
+		}
+		m, err := refmodel.Build(uu)
+		if err != nil {
+			c.Count("not_decided_twisted_universe_model_refuses", 1)
+			return
+		}
+		m.MaxSteps = 20000
+		guard = m
+	}
 	for k := 0; k < 3 && len(markers) > 0; k++ {
 		inst := map[string]any{gen.Pick(r, []string{"p0", "p1", "d1", "e1", "h"}): gen.Pick(r, markers)}
+		if guard != nil {
+			if _, err := guard.Validate(gen.Parse(gen.Text(inst))); err != nil {
+				c.Count("not_decided_possible_inplace_cycle", 1)
+				continue
+			}
+		}
 		if _, ok := validate(c, rs, root, inst, gen.Describe(inst)); !ok {
 			return
 		}
